@@ -13,7 +13,13 @@ use crate::wl;
 pub struct C17;
 
 fn c_content(rng: &mut Rng) -> Content {
-    wl::content(rng)
+    let mut c = wl::content(rng);
+    if rng.chance(1, 25) {
+        // byte pieces that are not UTF-8: both APIs must report the same error at the same call
+        c.stream = 1;
+        c.utf8_chunks = 200 + rng.below(HOSTILE_PIECES.len()) as u8;
+    }
+    c
 }
 
 fn c_el_op(rng: &mut Rng) -> ElOp {
